@@ -46,8 +46,16 @@ class Module:
         elif isinstance(node, ast.ImportFrom):
             if node.module == '__future__':
                 return
+            modname = node.module
+            if node.level:
+                # relative import: resolve against this module's package
+                pkg = self.name.split('.')
+                if not self.path.endswith('__init__.py'):
+                    pkg = pkg[:-1]
+                pkg = pkg[:len(pkg) - (node.level - 1)]
+                modname = '.'.join(pkg + ([node.module] if node.module else []))
             for a in node.names:
-                self.imports[a.asname or a.name] = (node.module, a.name)
+                self.imports[a.asname or a.name] = (modname, a.name)
         elif isinstance(node, ast.Assign):
             for t in node.targets:
                 if isinstance(t, ast.Name):
